@@ -26,6 +26,26 @@ func init() {
 			// cancelled jobs are dequeued and skipped: that path must not strand a pool goroutine
 			pf.Cancellers, pf.CancelOps = [2]int{0, 1}, [2]int{1, 4}
 			pf.Cancel = []wop{{opCloseJob, 8}, {opPurge, 1}}
+			if r.Chance(12) {
+				// a burst grows the pool, then single short jobs keep arriving with a period well
+				// below the idle expiry for more than three expiry periods: the one worker serving
+				// them stays fresh, the others have been idle that long and must be retired
+				pf.Expiry = []int{8}
+				pf.Conc = []int{3, 4, 8}
+				pf.WarmPct = 100
+				pf.Producers, pf.Ctrl, pf.CtrlOps = [2]int{0, 0}, nil, [2]int{0, 0}
+				pf.Cancellers, pf.UseCtxPct, pf.TickW = [2]int{0, 0}, 0, []int{0}
+				c, p := generate(r, pf)
+				ops := []Op{{K: opAwaitWarm}}
+				for i := 0; i < 16; i++ {
+					n := len(p.Subs)
+					p.Subs = append(p.Subs, SubT{N: n, Q: 0, Batch: -1})
+					ops = append(ops, Op{K: opAdd, Q: 0, Subs: []int{n}}, Op{K: opAdvance, A: 2})
+				}
+				ops = append(ops, Op{K: opSettle, A: 4})
+				p.Tasks = append(p.Tasks, ops)
+				return c, p
+			}
 			return generate(r, pf)
 		},
 		Judge: judgeC18,
@@ -98,6 +118,24 @@ func judgeC18(j *judgeCtx) {
 				}
 				if c.Val > want {
 					j.add("C18.f", c.Ret, "%d %s goroutines alive on a running worker at rest (expected %d): they accumulate across Stop/Restart cycles", c.Val, name, want)
+				}
+			}
+		case 22:
+			// after a trickle of single jobs over more than 3 expiry periods: at most the
+			// configured minimum plus the one worker the trickle itself kept fresh
+			if st == lsR && wd.cfg.Expiry > 0 && wd.cancelled == 0 {
+				ratio := wd.cfg.Ratio
+				if ratio > 100 {
+					ratio = 100
+				}
+				target := c.Val2 * ratio / 100
+				if target < 1 {
+					target = 1
+				}
+				// (simulated time only moves when everything is blocked: the previous job is long
+				// over when the next one arrives, so exactly one worker is kept fresh)
+				if c.Val > target+1 {
+					j.add("C18.c", c.Ret, "NumIdleWorkers() = %d after single jobs had trickled in for more than 3 expiry periods (concurrency %d, min-idle ratio %d): the workers that were idle all that time have not been retired", c.Val, c.Val2, ratio)
 				}
 			}
 		case 21:
